@@ -8,7 +8,7 @@ from sim import kernel, seams, prims
 from sim.runner import RunResult
 from worlds import common, chartgen
 from worlds.chartgen import Spec
-from models.refhsm import RefHSM
+from models.refhsm import RefHSM, FaultReached
 
 HOSTS = ('plain', 'instrumented', 'queued', 'ao', 'factory')
 
@@ -95,7 +95,8 @@ class ChartRun(object):
     self.uid = 0
     self.live_spy_buf = []
     self.live_trace_buf = []
-    self.ref = RefHSM(self.spec)
+    self.ref = RefHSM(self.spec, sc.get('malform_model'))
+    self.fault_op = None     # index of the op predicted to reach the malformation
     self.qm = QueueModel(sc.get('queue_size') or 500)
     self.fx_fired = {}
     self.events = {}         # uid -> Event
@@ -131,7 +132,7 @@ class ChartRun(object):
     self.fx_fired[f['id']] = n + 1
     op = f['op']
     uid = 'fx%d.%d' % (f['id'], n)
-    self.rec('fx', op, f.get('sig'), uid)
+    self.rec('fx', op, f.get('sig') or f.get('text'), uid)
     if op == 'post_fifo':
       chart.post_fifo(self.new_event(f['sig'], uid))
     elif op == 'post_lifo':
@@ -299,17 +300,27 @@ class ChartRun(object):
     is_ao = host in ('ao', 'factory')
 
     def start():
+      ev = seams.mods['event']
+      for pre in sc.get('pre_start') or []:
+        # requests made before start_at travel to the object's thread as meta events
+        if pre[0] == 'subscribe':
+          c.subscribe(ev.Event(signal=pre[1]))
+        elif pre[0] == 'publish':
+          c.publish(ev.Event(signal=pre[1]))
       c.start_at(build.h[sc['start']])
       self.started = True
       if is_ao:
         self.await_idle()
     pred0 = None
-    if not sc.get('malform'):
+    try:
       pred0 = self.ref.start(sc['start'])
       self._apply_fx(pred0, None)
       if is_ao:
         # an active object dispatches what start_at's handlers posted as soon as it runs
         pred0['steps'] = self._model_circuit()['steps']
+    except FaultReached:
+      self.fault_op = 0
+      pred0 = None
     ob = self.do(['start', sc['start']], start)
     ob.pred = pred0
     if ob.exc is not None:
@@ -320,8 +331,8 @@ class ChartRun(object):
       if k == 'ev':
         e = self.new_event(op[1])
         if host in ('plain', 'instrumented'):
-          ob = self.do(op, lambda: c.dispatch(e))
           pred = self._model_dispatch(e.payload, op[1])
+          ob = self.do(op, lambda: c.dispatch(e))
         elif host == 'queued':
           def f():
             c.post_fifo(e)
@@ -378,6 +389,8 @@ class ChartRun(object):
       else:
         raise ValueError(op)
       ob.pred = pred
+      if self.fault_op is not None:
+        break
       if ob.exc is not None and k not in ('child',):
         # an op that raised leaves the chart in an undefined state: stop the history here
         break
@@ -397,9 +410,11 @@ class ChartRun(object):
         self.qm.recall()
 
   def _model_dispatch(self, uid, sig):
-    if self.sc.get('malform'):
+    try:
+      p = self.ref.step(sig)
+    except FaultReached:
+      self.fault_op = len(self.steps)
       return None
-    p = self.ref.step(sig)
     p['event'] = uid
     self._apply_fx(p, (uid, sig))
     p['q_after'] = len(self.qm.q)
